@@ -15,6 +15,10 @@ pub struct ImgOpts {
     pub max_extra: usize,
     /// restrict to depths <= 12 and mark 16-bit buffers as sufficient (truthfully)
     pub narrow: bool,
+    /// 0: never write a preview frame; 1: only where the preview frame's TOC has the same number of
+    /// entries whether it is sized from the preview header (the format) or from the image header
+    /// (what jxl-oxide does); 2: any
+    pub preview: u32,
     /// with `narrow`: samples and residuals use the whole i16 range (13..15 bit samples) and no
     /// transform is applied, so nothing but the predictors' own arithmetic can leave 16 bits
     pub narrow_full_range: bool,
@@ -41,6 +45,7 @@ impl Default for ImgOpts {
             max_dim: 300,
             max_extra: 4,
             narrow: false,
+            preview: 0,
             narrow_full_range: false,
             allow_float: true,
             allow_squeeze_passes: true,
@@ -76,6 +81,8 @@ pub struct ModularImage {
     pub nonzero_residuals: usize,
     pub num_samples: usize,
     pub transforms: Vec<crate::modmodel::Transform>,
+    /// preview frame written in front of the frame: (width, height, TOC entry count differs between the two sizings)
+    pub preview: Option<(u32, u32, bool)>,
 }
 
 pub fn random_dims(rng: &mut Rng, class: u32, max_dim: u32, gdim: u32) -> (u32, u32) {
@@ -218,7 +225,35 @@ pub fn gen_modular_image(rng: &mut Rng, opts: &ImgOpts) -> Option<ModularImage> 
     // multi-pass frames need channels in passes other than the last only via squeeze shifts;
     // fine either way.
     let rs1 = rng.bool();
+    // optional preview frame (its size comes from the preview header)
+    let mut ih = ih;
+    let mut preview_info = None;
+    let mut preview_frame: Option<(ImageHeader, FrameHeader, Vec<BitWriter>)> = None;
+    if opts.preview > 0 && rng.chance(1, 10) {
+        let (pw, ph) = if rng.bool() { (rng.u32range(1, 24), rng.u32range(1, 24)) } else { (rng.u32range(1, 300), rng.u32range(1, 300)) };
+        let mut pmd = ih.metadata.clone();
+        pmd.extra_fields = pmd.needs_extra_fields();
+        let pih = ImageHeader { size: SizeHeader::new(pw, ph), metadata: pmd };
+        let pfh = FrameHeader::modular(&pih);
+        let differs = pfh.toc_entries() != FrameHeader::modular(&ih).toc_entries();
+        if opts.preview == 2 || !differs {
+            let pinfos = modular_channel_infos(&pih, &pfh);
+            let playout = group_layout(&pfh);
+            let pm = ModularOpts { transforms: None, max_transforms: 1, local_transform_pct: 0, ..mopts.clone() };
+            if let Some(penc) = encode_modular(rng, &pinfos, &playout, &pm) {
+                let psections = modular_frame_sections(&pfh, &penc, &plain_lf_global_prefix());
+                ih.metadata.preview = Some(PreviewHeader::with_random_repr(pw, ph, rng));
+                ih.metadata.all_default = false;
+                ih.metadata.extra_fields = true;
+                preview_info = Some((pw, ph, differs));
+                preview_frame = Some((pih, pfh, psections));
+            }
+        }
+    }
     let mut out = write_codestream_header(&ih, rng, rs1, None);
+    if let Some((pih, pfh, psections)) = preview_frame {
+        write_frame(&mut out, rng, &pih, &pfh, psections, false, false);
+    }
     let sections = modular_frame_sections(&fh, &enc, &plain_lf_global_prefix());
     let permute = rng.chance(1, 4);
     let rs2 = rng.bool();
@@ -243,6 +278,7 @@ pub fn gen_modular_image(rng: &mut Rng, opts: &ImgOpts) -> Option<ModularImage> 
         nonzero_residuals: enc.nonzero_residuals,
         num_samples: enc.num_samples,
         transforms: enc.transforms.clone(),
+        preview: preview_info,
     })
 }
 
